@@ -4,7 +4,7 @@
    functions of Model.v that the theorems of Properties.v are about.  Kept apart from
    Properties.v so that a broken fact does not take the hand theorems down. *)
 From Common Require Import Prelude.
-From C15 Require Import Model Proofs FactsModel FactsCheck.
+From C15 Require Import Model Proofs ProofsCodec ProofsInto FactsModel FactsCheck.
 From C15.gen Require Import Facts.
 Local Open Scope Z_scope.
 
@@ -73,3 +73,15 @@ Print Assumptions src_prefix_is_size_t.
 Theorem src_array_overload : gen_guard = true /\ overload_ok gen_overload = true.
 Proof. exact FactsCheck.src_array_overload. Qed.
 Print Assumptions src_array_overload.
+
+(* the statement shapes of the vector / string read overloads (resize(sz) before the element loop /
+   before read()) make them the specified readers for EVERY previous content of the destination *)
+Theorem src_vector_read_is_model : forall sh' old r,
+  exec_vecread gen_vec_read sh' 0 (old_elems old) r = get (SVec sh') r.
+Proof. exact FactsCheck.src_vector_read_is_model. Qed.
+Print Assumptions src_vector_read_is_model.
+
+Theorem src_string_read_is_model : forall old r,
+  exec_strread gen_str_read 0 (old_bytes old) r = get SStr r.
+Proof. exact FactsCheck.src_string_read_is_model. Qed.
+Print Assumptions src_string_read_is_model.
